@@ -2,6 +2,7 @@ package main
 
 func controlsC14() []Control {
 	return []Control{
+		{Name: "refused check reported as accepted (error shadowed)", Expect: "R8", Mutate: replaceIn("(*game).Check", "\tgs, err := g.backend.Check(g.gs)\n\tif err != nil {\n\t\treturn g.GetGameState(), err\n\t}\n", "\tgs, err := g.backend.Check(g.gs)\n\tif err != nil {\n\t\treturn g.GetGameState(), nil\n\t}\n", 0)},
 		{Name: "c-bet recorded under the VPIP chance", Expect: "R1", Mutate: replaceIn("(*tableEngine).PlayerBet", "if playerState.GameStatistics.IsCBetChance {", "if playerState.GameStatistics.IsVPIPChance {", 0)},
 		{Name: "call counted twice", Expect: "R2", Mutate: replaceIn("(*tableEngine).PlayerCall", "playerState.GameStatistics.CallTimes++", "playerState.GameStatistics.CallTimes++\n\t\tplayerState.GameStatistics.ActionTimes++", 0)},
 		{Name: "pass counted as a raise", Expect: "R2", Mutate: replaceIn("(*tableEngine).PlayerPass", "te.emitGamePlayerActionEvent(*te.table.State.LastPlayerGameAction)", "te.emitGamePlayerActionEvent(*te.table.State.LastPlayerGameAction)\n\t\tte.table.State.PlayerStates[playerIdx].GameStatistics.RaiseTimes++", 0)},
